@@ -221,3 +221,29 @@ def site_guards(fn, bb, region=None, depth=6):
     es = [sig(a, fn) for a, _ in entry]
     ds = [sig(a, fn) for a, _ in dom]
     return es, ds
+
+
+def backward_guards(fn, bb, depth=4, region=None):
+    """signatures of the conditional edges met when walking backwards from block bb, crossing at
+    most `depth` conditional edges on any backward path: an over-approximation of the condition
+    (conjunctions and disjunctions alike) under which bb is entered.  Returns [(Sig, levels)]."""
+    preds = fn.preds()
+    out = []
+    seen = {}
+    work = [(bb, 0)]
+    while work:
+        b, d = work.pop()
+        if seen.get(b, 99) <= d:
+            continue
+        seen[b] = d
+        for p, lab in preds.get(b, []):
+            if p not in fn.live or (region is not None and p not in region):
+                continue
+            if lab is not None and lab[0] != "const":
+                for a in fn.edge_atoms(p, lab):
+                    out.append((sig(a, fn), d + 1))
+                if d + 1 < depth:
+                    work.append((p, d + 1))
+            else:
+                work.append((p, d))
+    return out
